@@ -734,6 +734,9 @@ func c13GenScenario(r *rng, srcs []*moduleSource) *C13Scenario {
 	default:
 		sc.Start = "func-printed"
 	}
+	if nativeGoroutines && (sc.Start == "unfinished" || sc.Start == "md-clash") {
+		sc.Start = "fresh"
+	}
 	nt := 2 + r.intn(3)
 	crowd := r.chance(1, 8)
 	if crowd {
